@@ -90,6 +90,9 @@ func runC10(c *Ctx) {
 	// an error answer ends the request: nothing is executed, and no second document is appended, after it (C09)
 	c09StatusVsDispatch(c, nil)
 	c11TerminalFrame(c)
+	useUnderErrorEdge(c, "use-under-error-edge", pkgTransport, pkgGraphql)
+	loopCapturedCleanup(c, "loop-captured-cleanup", pkgTransport)
+	readerIndexInRange(c)
 }
 
 func c10DecodeNil(c *Ctx) {
@@ -170,6 +173,11 @@ func (c *Ctx) clientDerived(v ssa.Value, depth int) bool {
 	}
 	for _, d := range an.Defs(v) {
 		switch x := d.(type) {
+		case *ssa.Parameter:
+			// the connection_init payload (any JSON object the client chose)
+			if an.NamedIs(x.Type(), pkgTransport, "InitPayload") {
+				return true
+			}
 		case *ssa.UnOp:
 			if x.Op == token.MUL {
 				if fa, ok := x.X.(*ssa.FieldAddr); ok {
